@@ -21,9 +21,13 @@ STUBS = [
 
 
 def shapes_for(tier, k=None):
+    """Catalog shapes + the literal shapes (the chain of dependent sources is for C09 only: nothing can regenerate its
+    downstream source, so 'a repeated run does nothing' is not expected of it)."""
     import shapes
 
-    return shapes.QUICK if tier == "quick" else shapes.THOROUGH
+    if tier == "quick":
+        return shapes.QUICK + [shapes.BY_NAME[n] for n in shapes.EXTRA_QUICK]
+    return shapes.THOROUGH + [s for s in shapes.EXTRA if s.name != "dep_source_chain"]
 
 
 def max_ops(shape):
@@ -67,8 +71,9 @@ def conds_c03(tier):
 def conds_c09(tier):
     import shapes
 
-    names = (["chain_sss", "chain_src_s_u_s", "join_s_s_into_s", "fork_unstored_mid", "dep_edge", "dep_source", "dep_source_2pred", "out_unstored"]
-             if tier == "quick" else [s.name for s in shapes.THOROUGH])
+    names = (["chain_sss", "chain_src_s_u_s", "join_s_s_into_s", "fork_unstored_mid", "dep_edge", "dep_source", "dep_source_2pred", "out_unstored",
+              "lit_mid", "reg_literal", "dep_source_chain", "lit_chain"]
+             if tier == "quick" else [s.name for s in shapes.THOROUGH + shapes.EXTRA])
     cs = [xhrun.Cond("harness_cache", "c09_order", {"XH_SHAPE": json.dumps(shapes.BY_NAME[nm].to_json())}, timeout=300,
                      label=f"c09_order_{nm}") for nm in names]
     if tier == "thorough":
@@ -80,7 +85,7 @@ def conds_c09(tier):
 def conds_c08(tier):
     import shapes
 
-    names = ["chain_sss", "join_s_s_into_s", "chain_src_s_u_s"] if tier == "quick" else [s.name for s in shapes.THOROUGH]
+    names = ["chain_sss", "join_s_s_into_s", "chain_src_s_u_s"] if tier == "quick" else [s.name for s in shapes.THOROUGH] + ["lit_mid", "reg_literal", "lit_mid_src"]
     cs = []
     info = {}
     for nm in names:
